@@ -212,6 +212,74 @@ fn interest(sc: &Value) {
     std::mem::forget(handles);
 }
 
+/// kind "race" (spec/SelectorRace.tla): two operations on one descriptor's interest on one selector at the same
+/// time. Operation A is made by a task on the event-loop thread and is held for 25 ms between its change of the
+/// kernel's registration and its update of the records (pause points in the selector); operation B is made by
+/// this plain thread in between - what a hooked call of a thread does while a coroutine uses the same socket.
+fn race(sc: &Value) {
+    static GATE: AtomicBool = AtomicBool::new(false);
+    static FIRST: AtomicBool = AtomicBool::new(true);
+    static ADONE: AtomicBool = AtomicBool::new(false);
+    let eps = epoll_fds();
+    rec(json!({"ev": "epolls", "n": eps.len()}));
+    let mut fds = [0 as c_int; 2];
+    unsafe { libc::socketpair(libc::AF_UNIX, libc::SOCK_STREAM, 0, fds.as_mut_ptr()) };
+    let fd = fds[0];
+    let mut slots: HashMap<u64, c_int> = HashMap::new();
+    slots.insert(1, fd);
+    fn perform(op: &str, fd: c_int) -> bool {
+        let kind = if op.ends_with('R') { "R" } else { "W" };
+        if op.starts_with("add") {
+            rec(json!({"ev": "op", "op": "wait", "loop": 1, "fd": 1, "kind": kind, "kinds": []}));
+            let r = if kind == "R" { EventLoops::wait_read_event(fd, Some(Duration::from_millis(1))) } else { EventLoops::wait_write_event(fd, Some(Duration::from_millis(1))) };
+            r.is_ok()
+        } else {
+            rec(json!({"ev": "op", "op": "del", "loop": 1, "fd": 1, "kind": "", "kinds": [kind]}));
+            let r = if kind == "R" { EventLoops::del_read_event(fd) } else { EventLoops::del_write_event(fd) };
+            r.is_ok()
+        }
+    }
+    // the registration the race starts from (made on the loop, one interest after the other)
+    for k in sc["init"].as_array().unwrap() {
+        let op = format!("add{}", k.as_str().unwrap());
+        let h = EventLoops::submit_task(None, move |_| {
+            let ok = perform(&op, fd);
+            rec(json!({"ev": "op_done", "loop": 1, "ok": ok, "on": loop_of_thread()}));
+            Some(1)
+        }, None, None);
+        let _ = h.timeout_join(Duration::from_secs(3));
+        std::mem::forget(h);
+        snapshot(&eps, &slots);
+    }
+    open_coroutine_core::common::verif::set_pause(Some(Box::new(|point| {
+        if (point == "selector_between_register_and_record" || point == "selector_between_reregister_and_record")
+            && loop_of_thread() != 0 && FIRST.swap(false, Ordering::SeqCst)
+        {
+            GATE.store(true, Ordering::SeqCst);
+            std::thread::sleep(Duration::from_millis(25));
+        }
+    })));
+    let a = sc["a"].as_str().unwrap().to_string();
+    let b = sc["b"].as_str().unwrap().to_string();
+    let h = EventLoops::submit_task(None, move |_| {
+        let ok = perform(&a, fd);
+        rec(json!({"ev": "op_done", "loop": 1, "ok": ok, "on": loop_of_thread(), "who": "a"}));
+        ADONE.store(true, Ordering::SeqCst);
+        Some(1)
+    }, None, None);
+    let t0 = Instant::now();
+    while !GATE.load(Ordering::SeqCst) && !ADONE.load(Ordering::SeqCst) && t0.elapsed() < Duration::from_millis(1500) {
+        std::thread::sleep(Duration::from_micros(200));
+    }
+    rec(json!({"ev": "race", "held": GATE.load(Ordering::SeqCst)}));
+    let ok = perform(&b, fd);
+    rec(json!({"ev": "op_done", "loop": 1, "ok": ok, "on": 0, "who": "b"}));
+    let _ = h.timeout_join(Duration::from_secs(3));
+    std::mem::forget(h);
+    open_coroutine_core::common::verif::set_pause(None);
+    snapshot(&eps, &slots);
+}
+
 fn hook_map(m: Map<String, Value>) -> Option<Map<String, Value>> {
     let ev = m.get("ev").and_then(Value::as_str).unwrap_or("").to_string();
     match ev.as_str() {
@@ -341,7 +409,11 @@ fn run_scenario(sc: &Value) {
     cfg.set_event_loop_size(loops).set_max_size(16);
     EventLoops::init(&cfg);
     std::thread::sleep(Duration::from_millis(5));
-    if kind == "interest" { interest(sc) } else { ready(sc) }
+    match kind {
+        "interest" => interest(sc),
+        "race" => race(sc),
+        _ => ready(sc),
+    }
     rec(json!({"ev": "lend", "scenario": sc["id"]}));
     flush();
     unsafe { libc::_exit(0) };
